@@ -458,6 +458,7 @@ func (i *interpreter) doSelect(instr *ssa.Select, fr *frame) value {
 		cm  *chanModel
 	}
 	var cands []cand
+	var closed []int
 	for k, st := range instr.States {
 		if st.Dir != types.RecvOnly {
 			panic(unsupported{"select send"})
@@ -465,7 +466,24 @@ func (i *interpreter) doSelect(instr *ssa.Select, fr *frame) value {
 		ch := fr.get(st.Chan)
 		cm := i.chanKinds[ch]
 		if cm == nil {
-			panic(unsupported{"select on a channel that is not a modelled timer/ticker"})
+			// an ordinary channel (a stop channel): ready iff it has been closed; nothing can
+			// send on it, there is one goroutine
+			c, ok := ch.(chan value)
+			if !ok {
+				panic(unsupported{"select on a channel that is neither a modelled timer/ticker nor a plain channel"})
+			}
+			if c == nil {
+				continue
+			}
+			select {
+			case _, more := <-c:
+				if more {
+					panic(unsupported{"select on a channel holding a buffered value"})
+				}
+				closed = append(closed, k)
+			default:
+			}
+			continue
 		}
 		switch cm.kind {
 		case "ticker":
@@ -475,6 +493,36 @@ func (i *interpreter) doSelect(instr *ssa.Select, fr *frame) value {
 				cands = append(cands, cand{k, cm.period, cm})
 			}
 		}
+	}
+	if len(closed) > 0 {
+		// a closed channel is ready now; a timer/ticker competes only if its event time has
+		// already passed (Go then picks among the ready cases at random: fork)
+		ready := []int{closed[0]}
+		var readyCands []cand
+		for _, c := range cands {
+			if c.cm.created == nil {
+				continue
+			}
+			i.path.base()
+			if i.path.branch(Le(Add(c.cm.created, IntC(c.at)), i.path.clockAdv)) {
+				ready = append(ready, c.idx)
+				readyCands = append(readyCands, c)
+			}
+		}
+		pick := 0
+		if len(ready) > 1 {
+			sel := i.path.freshVar("sel", SInt)
+			i.path.assume(And(Le(IntC(0), sel), Lt(sel, IntC(int64(len(ready))))))
+			pick = int(i.path.concretize(sel, "select tie").Int64())
+		}
+		if pick == 0 {
+			r := tuple{closed[0], false}
+			for _, st := range instr.States {
+				r = append(r, zero(st.Chan.Type().Underlying().(*types.Chan).Elem()))
+			}
+			return r
+		}
+		cands = []cand{readyCands[pick-1]}
 	}
 	if len(cands) == 0 {
 		panic(pathEnd{"budget", "select would block forever"})
